@@ -69,7 +69,7 @@ def option_items(tier):
             out.append((sp, dict(o, post_insert=lst)))
             out.append((sp, dict(o, post_insert=lst, reload=True)))
         # absence steps deleted from the result afterwards; the list given to simulate() may name steps beyond the end of the run
-        for lst in ([1], [0, 2], [1, 50], [2, 3, 60], [70]):
+        for lst in ([1], [0, 2], [1, 50], [2, 3, 60], [70], [2, 1, 2], [1, 1], [0, 3, 0, 3]):
             out.append((sp, dict(o, absence=lst, post_remove=True)))
     # backward runs (logs reversed into forward-time reading, and left as they are) of models whose cost profile is not a palindrome
     back = [it for it in items(tier) if it[0].get("workplaces") and it[1]["max_time"] > 2][:: (3 if tier == "quick" else 1)]
